@@ -127,6 +127,94 @@ def _canonical_compares(tree):
             n.ops = [_FLIP_OPS[type(n.ops[0])]()]
 
 
+def _inline_return_temps(tree):
+    """`t = expr; return t` (adjacent statements, t a plain local: the value
+    assigned cannot be read anywhere but in that return) is rewritten to `return expr`: the
+    rules that judge what a function returns then see the expression
+    whether or not it was parked in a temporary first.  The `return`
+    keeps its own position; the expression keeps the position it had in
+    the assignment."""
+    for fn in ast.walk(tree):
+        if not isinstance(fn, (ast.FunctionDef, ast.AsyncFunctionDef)):
+            continue
+        # names that live beyond the function body or are read by a
+        # nested function are left alone
+        shared = set()
+        for x in ast.walk(fn):
+            if isinstance(x, (ast.Global, ast.Nonlocal)):
+                shared |= set(x.names)
+            elif x is not fn and isinstance(
+                    x, (ast.FunctionDef, ast.AsyncFunctionDef, ast.Lambda)):
+                shared |= {y.id for y in ast.walk(x)
+                           if isinstance(y, ast.Name)}
+        for node in ast.walk(fn):
+            for field in ('body', 'orelse', 'finalbody'):
+                stmts = getattr(node, field, None)
+                if not (isinstance(stmts, list) and stmts
+                        and isinstance(stmts[0], ast.stmt)):
+                    continue
+                i = 0
+                while i + 1 < len(stmts):
+                    a, b = stmts[i], stmts[i + 1]
+                    if isinstance(a, ast.Assign) and len(a.targets) == 1 \
+                            and isinstance(a.targets[0], ast.Name) \
+                            and isinstance(b, ast.Return) \
+                            and isinstance(b.value, ast.Name) \
+                            and b.value.id == a.targets[0].id \
+                            and b.value.id not in shared:
+                        b.value = a.value
+                        del stmts[i]
+                        continue
+                    i += 1
+
+
+def _inline_condition_temps(tree):
+    """`c = expr; if c:` / `if not c:` (adjacent statements, c a plain
+    local that is read nowhere else) is rewritten to `if expr:` /
+    `if not expr:`: the rules that recognise guards then see the test
+    whether or not it was given a name first."""
+    for fn in ast.walk(tree):
+        if not isinstance(fn, (ast.FunctionDef, ast.AsyncFunctionDef)):
+            continue
+        loads, stores, shared = {}, {}, set()
+        for x in ast.walk(fn):
+            if isinstance(x, ast.Name):
+                d = loads if isinstance(x.ctx, ast.Load) else stores
+                d[x.id] = d.get(x.id, 0) + 1
+            elif isinstance(x, (ast.Global, ast.Nonlocal)):
+                shared |= set(x.names)
+            elif x is not fn and isinstance(
+                    x, (ast.FunctionDef, ast.AsyncFunctionDef, ast.Lambda)):
+                shared |= {y.id for y in ast.walk(x)
+                           if isinstance(y, ast.Name)}
+        for node in ast.walk(fn):
+            for field in ('body', 'orelse', 'finalbody'):
+                stmts = getattr(node, field, None)
+                if not (isinstance(stmts, list) and stmts
+                        and isinstance(stmts[0], ast.stmt)):
+                    continue
+                i = 0
+                while i + 1 < len(stmts):
+                    a, b = stmts[i], stmts[i + 1]
+                    if isinstance(a, ast.Assign) and len(a.targets) == 1 \
+                            and isinstance(a.targets[0], ast.Name) \
+                            and isinstance(b, ast.If):
+                        t = a.targets[0].id
+                        holder, attr = b, 'test'
+                        tst = b.test
+                        if isinstance(tst, ast.UnaryOp) and isinstance(
+                                tst.op, ast.Not):
+                            holder, attr, tst = tst, 'operand', tst.operand
+                        if isinstance(tst, ast.Name) and tst.id == t \
+                                and loads.get(t, 0) == 1 \
+                                and stores.get(t, 0) == 1 \
+                                and t not in shared:
+                            setattr(holder, attr, a.value)
+                            del stmts[i]
+                            continue
+                    i += 1
+
+
 def _set_parents(tree):
     for node in ast.walk(tree):
         for child in ast.iter_child_nodes(node):
@@ -188,6 +276,9 @@ class ProgramDB(object):
         except SyntaxError as e:
             self.parse_failures.append((str(path), str(e)))
             raise AnalysisError(f'cannot parse {path}: {e}')
+        _canonical_compares(tree)
+        _inline_return_temps(tree)
+        _inline_condition_temps(tree)
         _canonical_compares(tree)
         _set_parents(tree)
         relpath = str(path.relative_to(self.repo_root))
